@@ -362,7 +362,7 @@ def run_f4(spec):
             term = sl.norm(e)
         return outs, term
 
-    outs, term = run_with_watchdog(case, budget_s=90, what='parmap(process)')
+    outs, term = run_with_watchdog(case, budget_s=30, what='parmap(process)')
     exp, eterm = [], 'end'
     for x in spec['xs']:
         if x in spec['fails']:
